@@ -511,6 +511,39 @@ impl<'a> Printer<'a> {
         self.records += 1;
     }
 
+    /// Append a `$ORIGIN <absolute name>` entry on its own (outside `emit_record`).
+    pub fn emit_origin_line(&mut self, origin: &Labels) {
+        let mut esc = false;
+        self.text.push_str("$ORIGIN ");
+        self.text.push_str(&name_abs(origin, &mut esc));
+        self.text.push_str(self.nl);
+        if !eq_name(origin, &self.origin_arg) {
+            self.origin_changed = true;
+        }
+        self.origin = origin.clone();
+    }
+
+    /// Append a `$TTL <n>` entry on its own.
+    pub fn emit_ttl_line(&mut self, ttl: u32) {
+        self.text.push_str(&format!("$TTL {ttl}{}", self.nl));
+        self.ttl_default = Some(ttl);
+    }
+
+    /// Append a line that denotes nothing: 0 empty, 1 white space only, 2 comment at column 0,
+    /// 3 indented comment.
+    pub fn emit_void_line(&mut self, kind: u8) {
+        match kind {
+            0 => {}
+            1 => self.text.push_str(" \t "),
+            2 => self.text.push_str(COMMENT),
+            _ => {
+                self.text.push_str("\t ");
+                self.text.push_str(COMMENT);
+            }
+        }
+        self.text.push_str(self.nl);
+    }
+
     /// The finished text; `final_newline=false` removes the last line terminator.
     pub fn finish(&self, final_newline: bool) -> String {
         let mut t = self.text.clone();
@@ -575,4 +608,25 @@ mod tests {
         let p = print_file(&o, &[], &[&r], &[0, 1, 0], &[lay]).unwrap();
         assert_eq!(p.text, "a 300 IN MX (10 m\\.x)");
     }
+}
+
+/// The RDATA of `rec` as plain tokens: integers in decimal, absolute names, every character
+/// string quoted (with `\"` and `\\`), literals verbatim.
+pub fn plain_tokens(rec: &Rec) -> Vec<String> {
+    let mut esc = false;
+    rec.rdata
+        .iter()
+        .map(|f| match f {
+            Field::Int(v) => v.to_string(),
+            Field::Lit(s) => s.clone(),
+            Field::Str(s) => quoted(s, &mut esc),
+            Field::Name(n) => name_abs(n, &mut esc),
+        })
+        .collect()
+}
+
+/// `<owner> <ttl> <class> <type>` with an absolute owner, single spaces, no line end.
+pub fn plain_head(rec: &Rec) -> String {
+    let mut esc = false;
+    format!("{} {} {} {}", name_abs(&rec.owner, &mut esc), rec.ttl, rec.class, rec.rtype)
 }
